@@ -158,6 +158,8 @@ CHECKS = {
             {"engine": "prog-closures", "profile": "dev", "cases": {"quick": 4000, "thorough": 100000}, "primary": True},
             {"engine": "prog-closures", "profile": "release", "cases": {"quick": 0, "thorough": 100000}, "primary": False},
             asan("prog-closures", 160, 8000, leaks=False),
+            # captured variables outlive their scope: the closure programs under forced collections (heap audit + self-differential)
+            {"engine": "gc", "profile": "dev", "cases": {"quick": 150, "thorough": 6000}, "primary": False, "args": {"source": "closures", "max-singles": 150}},
         ],
         "hard_floor": {"evaluations": 100, "counters": {"feat:closure-created": 1000}},
         "targets": {"quick": {"feat:closure-created-in-callee": 5000, "feat:upvalue-read": 20000, "feat:upvalue-write": 5000, "scenario:same-card-position-in-two-modules": 300, "scenario:per-iteration-capture": 300, "scenario:shared-siblings": 300},
